@@ -393,7 +393,32 @@ func runC03(c *eng.Ctx) {
 			c.Check(isConst && !val, "reader in "+outer, c.Pos(s.Instr), "created with uncommitted = false", "a reader outside the replicator is created with uncommitted = "+eng.Describe(unc)+": consumers could see messages above the high watermark")
 		}
 	}
-	c.Floor(3)
+	// inside the package: wherever a Reader's inner reader is (re)created, its kind follows the Reader's own `uncommitted`
+	// flag — NewReader at creation, ReadMessage after the segment it read from was replaced
+	for _, k := range []string{cl + "(*commitLog).NewReader", cl + "(*Reader).ReadMessage"} {
+		fn := c.Fn(k)
+		if fn == nil {
+			continue
+		}
+		flag := func(v ssa.Value) bool { return eng.Param("uncommitted")(v) || eng.LoadNamed("uncommitted", nil)(v) }
+		unc := eng.BoolEdges(fn, flag, true)
+		com := eng.BoolEdges(fn, flag, false)
+		nU, nC, okKind := 0, 0, len(unc) > 0 && len(com) > 0
+		for _, call := range eng.CallsIn(fn, cl+"commitLog.newReaderUncommitted") {
+			nU++
+			if g, _ := eng.GuardedBy(fn, call.(ssa.Instruction), unc); !g {
+				okKind = false
+			}
+		}
+		for _, call := range eng.CallsIn(fn, cl+"commitLog.newReaderCommitted") {
+			nC++
+			if g, _ := eng.GuardedBy(fn, call.(ssa.Instruction), com); !g {
+				okKind = false
+			}
+		}
+		c.Check(okKind && nU >= 1 && nC >= 1, "inner reader kind follows the Reader's flag in "+ir.FuncKey(fn), p.Pos(fn.Pos()), "newReaderUncommitted only on uncommitted, newReaderCommitted otherwise", "a committed Reader can be given an uncommitted inner reader (for instance when it is re-created after compaction replaced the segment under it): from then on the subscriber reads without any high-watermark limit")
+	}
+	c.Floor(5)
 
 	// ---- R03.9 a reader that has not seen the newest watermark is woken, not told that the log ended
 	c.Rule("R03.9", "K1")
@@ -480,6 +505,11 @@ func runC03(c *eng.Ctx) {
 		c.Check(ro, "readonly wake-up reported", p.Pos(fn.Pos()), "returns ErrCommitLogReadonly exactly on the readonly signal", "the readonly signal is not (only) what is turned into ErrCommitLogReadonly")
 	}
 	c.Floor(6)
+	// ---- R01.14 (shared) readers look segments up in a freshly fetched list
+	c.Rule("R01.14", "K5")
+	ruleFreshSegmentList(c)
+	c.Floor(3)
+
 }
 
 func isReturn(in ssa.Instruction) bool { _, ok := in.(*ssa.Return); return ok }
